@@ -75,6 +75,25 @@ VEq(a, b) ==
            [] a.t = "union" -> a.i = b.i /\ VEq(a.v, b.v)
            [] OTHER -> FALSE
 
+\* derived order (std: cmp of tuples and sequences is lexicographic, a proper prefix is smaller; false < true; the
+\* relations lt / le / gt / ge follow from cmp).  2 = not decided here (strings that differ: TLC cannot order them)
+RECURSIVE ECmp(_, _), ECmpSeq(_, _, _)
+ECmpSeq(xs, ys, i) ==
+    IF i > Len(xs) /\ i > Len(ys) THEN 0
+    ELSE IF i > Len(xs) THEN -1 ELSE IF i > Len(ys) THEN 1
+    ELSE LET c == ECmp(xs[i], ys[i]) IN IF c # 0 THEN c ELSE ECmpSeq(xs, ys, i + 1)
+ECmp(a, b) ==
+    IF a.t # b.t THEN 2
+    ELSE CASE a.t = "int" -> Cmp3(a.v, b.v)
+           [] a.t = "bool" -> IF a.v = b.v THEN 0 ELSE IF b.v THEN -1 ELSE 1
+           [] a.t = "str" -> IF a.v = b.v THEN 0 ELSE 2
+           [] a.t \in {"seq", "struct"} -> ECmpSeq(a.v, b.v, 1)
+           [] OTHER -> 2
+Rel(f, a, b) == LET c == ECmp(a, b)
+                IN IF c = 2 THEN BigV
+                   ELSE CASE f = "lt" -> BoolV(c < 0) [] f = "le" -> BoolV(c <= 0) [] f = "gt" -> BoolV(c > 0)
+                          [] f = "ge" -> BoolV(c >= 0) [] f = "cmp" -> IntV(c)
+
 \* to_str: exact for int/bool/str; "[a, b]" for sequences, "(a, b)" for tuples (std docs:
 \* items separated by commas inside brackets)
 RECURSIVE VStr(_), JoinStr(_, _)
@@ -123,11 +142,7 @@ Prim(f, a) ==
       [] f = "bit_and_b" -> BoolV(a[1].v /\ a[2].v)
       [] f = "eq"      -> BoolV(VEq(a[1], a[2]))
       [] f = "ne"      -> BoolV(~VEq(a[1], a[2]))
-      [] f = "lt"      -> BoolV(a[1].v < a[2].v)
-      [] f = "le"      -> BoolV(a[1].v <= a[2].v)
-      [] f = "gt"      -> BoolV(a[1].v > a[2].v)
-      [] f = "ge"      -> BoolV(a[1].v >= a[2].v)
-      [] f = "cmp"     -> IntV(Cmp3(a[1].v, a[2].v))
+      [] f \in {"lt", "le", "gt", "ge", "cmp"} -> Rel(f, a[1], a[2])
       [] f = "not"     -> BoolV(~a[1].v)
       [] f = "to_str"  -> StrV(VStr(a[1]))
       [] f = "len"     -> IntV(Len(a[1].v))
